@@ -9,6 +9,7 @@ import (
 	"github.com/eclipse/paho.mqtt.golang/packets"
 	"github.com/emitter-io/emitter/internal/event"
 	"github.com/emitter-io/emitter/internal/message"
+	"github.com/emitter-io/emitter/internal/verifauto"
 	"github.com/emitter-io/emitter/internal/verifyield"
 	"github.com/weaveworks/mesh"
 	"github.com/emitter-io/emitter/verifsim/kernel"
@@ -22,10 +23,10 @@ import (
 func init() {
 	kernel.Register(&kernel.World{
 		Property: "C05", Bubble: true, Run: runC05, RunsPerProc: 40, RunTimeout: 300 * time.Second,
-		Rule: "one run = 2-4 real brokers on the simulated mesh (full mesh or line), 1-2 clients per broker; tape-generated subscribe / unsubscribe / abrupt disconnect + reconnect bursts on channels {a/, b/, a/b/, b/a/}; every transport event (which link sender runs, which in-flight message is delivered, GC notifications), every clock advance (us..31 s: peer send queues, emitter's 5 s update, periodic full-state gossip) and, by campaign (A schedules only, B + link down / partition / heal, C + broker crash and restart on a crash image, clean stop and restart, D schedules + two gossip messages delivered to one broker by two goroutines interleaved at the yield points of Swarm.merge) every fault is a tape decision. At quiescence (faults stopped, links healed by emitter's own Join loop, 150 simulated seconds): no Gossiper callback panicked; every broker's trie holds the remote entry (filter, peer P) iff P has a live local subscriber with that filter; one probe publish per (broker, channel) reaches every matching subscriber on every broker exactly once and nobody else. non-trivial = >= 1 remote route expected at quiescence; distinct = distinct canonical logs",
+		Rule: "one run = 2-4 real brokers on the simulated mesh (full mesh or line), 1-2 clients per broker; tape-generated subscribe / unsubscribe / abrupt disconnect + reconnect bursts on channels {a/, b/, a/b/, b/a/}; every transport event (which link sender runs, which in-flight message is delivered, GC notifications), every clock advance (us..31 s: peer send queues, emitter's 5 s update, periodic full-state gossip) and, by campaign (A schedules only, B + link down / partition / heal, C + broker crash and restart on a crash image, clean stop and restart, D schedules + two gossip messages delivered to one broker by two goroutines interleaved at the yield points of Swarm.merge, E schedules + a client's subscribe / unsubscribe served by its connection goroutine while a link goroutine merges gossip for the same broker, interleaved at every mutex / sync.Map boundary of swarm.go and internal/event/crdt that tools/autoyield instrumented, by a uniform, a depth-preemptive or a sticky-biased policy chosen by the tape) every fault is a tape decision. At quiescence (faults stopped, links healed by emitter's own Join loop, 150 simulated seconds): no Gossiper callback panicked; every broker's trie holds the remote entry (filter, peer P) iff P has a live local subscriber with that filter; one probe publish per (broker, channel) reaches every matching subscriber on every broker exactly once and nobody else. non-trivial = >= 1 remote route expected at quiescence; distinct = distinct canonical logs",
 		Real:  []string{"broker.Service x N", "cluster.Swarm (Notify, merge, onPeerOnline/Offline, update, Join)", "cluster.Peer (counters, send queue)", "event.State / crdt (durable)", "pubsub, message.Trie", "Service.onPeerMessage"},
 		Stub:  []string{"weaveworks/mesh (simmesh transcription: per-link senders, broadcast tree, relays, periodic gossip, full state on link-up, GC)", "client sockets (simnet)", "clock (synctest)"},
-		Assumptions: []string{"Gossiper callbacks run one at a time (the real mesh runs one receive loop per link)", "topology knowledge in the mesh is immediate (its own topology gossip is not simulated)", "a live mesh link is a TCP stream: FIFO, lossless; loss only when a link or node goes down", "a broker's own clock strictly increases between two client operations (no timestamp ties inside one broker; ties and skew between replicas are explored by C04/C13)", "brokers' clocks are synchronised and every transport event (delivery, connect, link down, partition, kill) happens at least 1 us after its cause"},
+		Assumptions: []string{"outside campaigns D and E Gossiper callbacks run one at a time (the real mesh runs one receive loop per link)", "topology knowledge in the mesh is immediate (its own topology gossip is not simulated)", "a live mesh link is a TCP stream: FIFO, lossless; loss only when a link or node goes down", "a broker's own clock strictly increases between two client operations and between two critical sections of concurrent goroutines in campaign E (no timestamp ties inside one broker; ties and skew between replicas are explored by C04/C13)", "brokers' clocks are synchronised and every transport event (delivery, connect, link down, partition, kill) happens at least 1 us after its cause"},
 	})
 }
 
@@ -72,7 +73,7 @@ func runC05(c *kernel.Ctx) {
 	c.SleepToEpoch()
 	campaign := c.Params["campaign"]
 	if campaign == "" {
-		campaign = []string{"A", "A", "B", "B", "C", "D"}[t.Choose(6)]
+		campaign = []string{"A", "A", "B", "B", "C", "D", "E"}[t.Choose(7)]
 	}
 	// campaign D: schedules only, plus gossip arriving on two links of one broker
 	// at the same time (the mesh runs one receive goroutine per link): the two
@@ -87,6 +88,19 @@ func runC05(c *kernel.Ctx) {
 	}
 	verifyield.Hook = baton.Hook
 	defer func() { baton.ReleaseAll(); verifyield.Hook = nil }()
+	if campaign == "E" {
+		// campaign E: a client's subscribe / unsubscribe served by its connection goroutine
+		// while a gossip payload for the same broker is being merged by a link goroutine.
+		// Scheduling points: the ones tools/autoyield puts around every mutex operation of
+		// swarm.go and internal/event/crdt in the scratch copy; a task may park while it
+		// holds a mutex, whoever wants that mutex stays parked until it is free.
+		baton.Auto = []string{"internal/service/cluster/swarm.go", "internal/event/crdt/"}
+		baton.ParkHolding = true
+		// the simulated mesh combines queued payloads (payload.Merge) and encodes them under its own mutex
+		baton.NoParkUnder = []string{"mesh.(*Network).safeMerge", "mesh.(*Network).doSend", "mesh.(*Network).broadcast", "mesh.(*Network).send"}
+		verifauto.Hook, verifauto.AcquireHook, verifauto.LockHook = baton.Hook, baton.AcquireHook, baton.LockHook
+		defer func() { verifauto.Hook, verifauto.AcquireHook, verifauto.LockHook = nil, nil, nil }()
+	}
 	n := t.Range(2, 4)
 	line := n >= 3 && t.Chance(1, 3)
 	lic := world.Licenses[2]
@@ -177,6 +191,8 @@ func runC05(c *kernel.Ctx) {
 			}
 		case k < 60 && campaign == "D":
 			w.concurrentDeliver(baton)
+		case k < 60 && campaign == "E":
+			w.concurrentLocal(baton)
 		case k < 75:
 			cl.NetStep()
 		case k < 90:
@@ -287,6 +303,80 @@ func (w *c05World) concurrentDeliver(baton *kernel.Baton) {
 	}
 	baton.ReleaseAll()
 	world.Settle()
+}
+
+// concurrentLocal lets one in-flight gossip message be merged by a link goroutine
+// while a client of the same broker has a subscribe or unsubscribe served by its
+// connection goroutine; the tape interleaves the two at every mutex boundary.
+func (w *c05World) concurrentLocal(baton *kernel.Baton) {
+	c, cl, t := w.c, w.cl, w.c.Tape
+	cl.Net.Canonicalise()
+	idx := map[mesh.PeerName]int{}
+	for i := range cl.Brokers {
+		idx[cl.Name(i)] = i
+	}
+	type cand struct {
+		e  mesh.Event
+		cc *c05Client
+	}
+	var cands []cand
+	for _, e := range cl.Net.Enabled() {
+		if e.Kind != "deliver" {
+			continue
+		}
+		for _, cc := range w.live() {
+			if cc.broker == idx[e.B] {
+				cands = append(cands, cand{e, cc})
+			}
+		}
+	}
+	if len(cands) == 0 {
+		cl.NetStep()
+		return
+	}
+	k := cands[t.Choose(len(cands))]
+	cc := k.cc
+	var held []string
+	for _, f := range w.chans {
+		if cc.subs[f] {
+			held = append(held, f)
+		}
+	}
+	world.Advance(c, time.Duration(t.Range(1, 2000))*time.Microsecond)
+	cl.Latency()
+	unsub := len(held) > 0 && t.Chance(2, 3)
+	f := ""
+	if unsub {
+		f = held[t.Choose(len(held))]
+	} else {
+		f = w.chans[t.Choose(len(w.chans))]
+	}
+	c.Logf("net deliver %s while %s@b%d %s %s", k.e, cc.name, cc.broker, map[bool]string{true: "unsubscribes", false: "subscribes"}[unsub], f)
+	c.Fault("merge-concurrent-with-local-operation")
+	baton.SetActive(true)
+	go cl.Net.Do(k.e)
+	world.Settle() // the merge parks at its first boundary before the connection goroutine wakes up
+	if unsub {
+		cc.cl.Send(cc.cl.Unsubscribe(w.key + "/" + f))
+		delete(cc.subs, f)
+	} else {
+		cc.cl.Send(cc.cl.Subscribe(w.key + "/" + f))
+		cc.subs[f] = true
+	}
+	baton.PreemptSite = c.Params["preempt"]
+	_, stuck := baton.Drive(t, world.Settle, func(p *kernel.Parked, runnable, waiting int) {
+		c.Logf("  task crosses %s (%d of %d can run)", p.Site, runnable, waiting)
+		time.Sleep(time.Microsecond) // the broker's clock moves on between any two critical sections (no timestamp ties)
+		if waiting > runnable {
+			c.Probe("task-kept-parked-because-mutex-is-held")
+		}
+	}, 4000)
+	if stuck {
+		c.Harnessf("campaign E: %d tasks parked, none can run (or step bound)", baton.Waiting())
+	}
+	baton.ReleaseAll()
+	world.Settle()
+	cc.cl.Recv()
 }
 
 // keepalive: idle clients ping so that the broker's 120 s read deadline never ends them.
